@@ -55,7 +55,8 @@ theorem tokKnown_mono {env : Env} {n1 n2 : Nat} {c : Bytes} (h : TokKnown env n1
 /-- a token that denotes nothing (any more) keeps denoting nothing after any request, whoever sends it and
 whatever cookie it presents — in particular the very token itself -/
 theorem dead_step (ctx : Ctx) (st : Store) (next : Nat) (ops : List Op) (c2 : Bytes)
-    (he : EnvOK ctx.env) (hf : Fresh ctx.env) (hi : StoreInv ctx.env st next) (ha : Admissible ctx.env ctx.cookie)
+    (he : EnvOK ctx.env) (bound : Nat) (hf : Fresh ctx.env bound) (hb : (request ctx st next ops).next ≤ bound)
+    (hi : StoreInv ctx.env st next) (ha : Admissible ctx.env ctx.cookie)
     (hnC : firstIs c2 67 = false) (hk : TokKnown ctx.env next c2)
     (hdead : ∀ t, ctx.now ≤ t → Spec.alive t (absTok ctx.cfg ctx.env st.recs c2) = none) :
     ∀ t, ctx.now ≤ t → Spec.alive t (absTok ctx.cfg ctx.env (request ctx st next ops).store.recs c2) = none := by
@@ -100,12 +101,12 @@ theorem dead_step (ctx : Ctx) (st : Store) (next : Nat) (ops : List Op) (c2 : By
       | untouched => cases hk2
       | written tok =>
         have hnt : ctx.cookie ≠ tok := by
-          rcases request_token_form ctx st next ops tok hk1 with ⟨to, d, rfl⟩ | ⟨rfl, _⟩ | ⟨_, _, s0', st1, cs, hL, hns, hdne⟩
+          rcases request_token_form ctx st next ops tok hk1 with ⟨to, d, rfl⟩ | ⟨rfl, hn⟩ | ⟨_, _, _, s0', st1, cs, hL, hns, hdne⟩
           · intro e; rw [e] at hnC; simp [firstIs] at hnC
           · rcases hk with h | ⟨m, hm, h⟩ | h
             · rw [h] at hnC; cases hnC
             · intro e; rw [h] at e
-              have := hf m next (by simpa using e)
+              have := hf m next (by omega) (by omega) (by simpa using e)
               omega
             · exact h next
           · -- an identifier is only kept by a session that was loaded; nothing was
@@ -122,7 +123,7 @@ theorem dead_step (ctx : Ctx) (st : Store) (next : Nat) (ops : List Op) (c2 : By
         split at this
         · exact SEq_none this
         · rw [hdead t ht] at this; exact SEq_none this
-  · have := request_frame ctx st next ops c2 he hf hi ha hne hk t ht
+  · have := request_frame ctx st next ops c2 he bound hf hb hi ha hne hk t ht
     rw [hdead t ht] at this
     exact SEq_none this
 
@@ -172,7 +173,8 @@ theorem run_inv (cfg : Cfg) (env : Env) (st : Store) (next : Nat) (now0 : Int) (
 
 /-- requests that do not present `c2` leave what `c2` denotes alone, however many and whoever sends them -/
 theorem run_frame (cfg : Cfg) (env : Env) (st : Store) (next : Nat) (now0 : Int) (steps : List Step) (c2 : Bytes)
-    (he : EnvOK env) (hf : Fresh env) (hi : StoreInv env st next) (h : HistOK env now0 steps)
+    (he : EnvOK env) (bound : Nat) (hf : Fresh env bound) (hb : (run cfg env st next steps).2 ≤ bound)
+    (hi : StoreInv env st next) (h : HistOK env now0 steps)
     (hne : ∀ s ∈ steps, s.cookie ≠ c2) (hk : TokKnown env next c2) :
     ∀ t, lastNow now0 steps ≤ t →
       SEq (Spec.alive t (absTok cfg env (run cfg env st next steps).1.recs c2)) (Spec.alive t (absTok cfg env st.recs c2)) := by
@@ -182,15 +184,18 @@ theorem run_frame (cfg : Cfg) (env : Env) (st : Store) (next : Nat) (now0 : Int)
     obtain ⟨_, h2, h3⟩ := h
     intro t ht
     obtain ⟨i1, i2⟩ := request_inv (stepCtx cfg env s) st next s.ops hi h2
-    have hstep := request_frame (stepCtx cfg env s) st next s.ops c2 he hf hi h2
+    have hb1 : (request (stepCtx cfg env s) st next s.ops).next ≤ bound :=
+      Nat.le_trans (run_inv cfg env _ _ s.now rest i1 h3).2 hb
+    have hstep := request_frame (stepCtx cfg env s) st next s.ops c2 he bound hf hb1 hi h2
       (fun e => hne s (List.mem_cons_self ..) e.symm) hk t
       (by have := lastNow_ge env s.now rest h3; simp only [lastNow] at ht; simp only [stepCtx]; omega)
-    have hrest := ih _ _ s.now i1 h3 (fun x hx => hne x (List.mem_cons_of_mem _ hx)) (tokKnown_mono hk i2) t ht
+    have hrest := ih _ _ s.now hb i1 h3 (fun x hx => hne x (List.mem_cons_of_mem _ hx)) (tokKnown_mono hk i2) t ht
     exact SEq.trans' hrest hstep
 
 /-- a token that denotes nothing keeps denoting nothing through any history -/
 theorem run_dead (cfg : Cfg) (env : Env) (st : Store) (next : Nat) (now0 : Int) (steps : List Step) (c2 : Bytes)
-    (he : EnvOK env) (hf : Fresh env) (hi : StoreInv env st next) (h : HistOK env now0 steps)
+    (he : EnvOK env) (bound : Nat) (hf : Fresh env bound) (hb : (run cfg env st next steps).2 ≤ bound)
+    (hi : StoreInv env st next) (h : HistOK env now0 steps)
     (hnC : firstIs c2 67 = false) (hk : TokKnown env next c2)
     (hdead : ∀ t, now0 ≤ t → Spec.alive t (absTok cfg env st.recs c2) = none) :
     ∀ t, lastNow now0 steps ≤ t → Spec.alive t (absTok cfg env (run cfg env st next steps).1.recs c2) = none := by
@@ -199,9 +204,11 @@ theorem run_dead (cfg : Cfg) (env : Env) (st : Store) (next : Nat) (now0 : Int) 
   | cons s rest ih =>
     obtain ⟨h1, h2, h3⟩ := h
     obtain ⟨i1, i2⟩ := request_inv (stepCtx cfg env s) st next s.ops hi h2
-    have hstep := dead_step (stepCtx cfg env s) st next s.ops c2 he hf hi h2 hnC hk
+    have hb1 : (request (stepCtx cfg env s) st next s.ops).next ≤ bound :=
+      Nat.le_trans (run_inv cfg env _ _ s.now rest i1 h3).2 hb
+    have hstep := dead_step (stepCtx cfg env s) st next s.ops c2 he bound hf hb1 hi h2 hnC hk
       (fun t ht => hdead t (by simp only [stepCtx] at ht; omega))
-    exact ih _ _ s.now i1 h3 (tokKnown_mono hk i2) hstep
+    exact ih _ _ s.now hb i1 h3 (tokKnown_mono hk i2) hstep
 
 theorem storeInv_empty (env : Env) : StoreInv env ⟨[], []⟩ 0 :=
   ⟨trivial, fun _ h => (by cases h), fun _ h => (by cases h)⟩
